@@ -67,6 +67,12 @@ def oclass(out: Any) -> str:
     return out[0]
 
 
+import keyword
+
+ACTIVATION_ATTRS = {"identifiers", "functions", "package", "clone", "get", "nested_activation", "resolve_variable", "resolve_function"}
+PY_KEYWORDS = set(keyword.kwlist)
+
+
 def head(n: Node) -> str:
     if n.k in ("bin", "un"):
         return f"{n.k} {n.a[0]}"
@@ -78,6 +84,15 @@ def head(n: Node) -> str:
         return f"lit {n.a[0][0]}"
     if n.k == "raw":
         return f"raw {n.a[3] if len(n.a) > 3 else '?'}"
+    if n.k == "var":
+        name = n.a[0]
+        if name in ACTIVATION_ATTRS:
+            return "var:activation-attr"
+        if name in PY_KEYWORDS:
+            return "var:python-keyword"
+        return "var"
+    if n.k == "field" and n.a[1] in PY_KEYWORDS:
+        return "field:python-keyword"
     return n.k
 
 
@@ -113,7 +128,7 @@ def shape(n: Node, cls_of: Callable[[Node], str], max_ops: int = 3) -> str:
 
 _COARSE = {
     "ListType": "list", "list": "list", "MapType": "map", "dict": "map", "StringType": "string", "str": "string", "BytesType": "bytes", "bytes": "bytes",
-    "NoneType": "null", "<type>": "type", "IntType": "num", "UintType": "num", "DoubleType": "num", "BoolType": "bool", "int": "num", "float": "num", "bool": "bool",
+    "NoneType": "null", "<type>": "type", "IntType": "int", "UintType": "uint", "DoubleType": "double", "BoolType": "bool", "int": "pyint", "float": "pyfloat", "bool": "pybool",
     "TimestampType": "time", "DurationType": "time", "datetime": "time", "timedelta": "time", "<error-object>": "errobj",
 }
 
